@@ -9,6 +9,7 @@ registered / non-registered traffic, polls at any times, resets), from a new sca
 -/
 import Midi.Proofs.Polling
 import Midi.Spec.Monitor
+import Midi.Proofs.PollRelabel
 set_option linter.unusedSimpArgs false
 set_option linter.unusedVariables false
 namespace Midi.Props.C14
@@ -304,5 +305,25 @@ theorem monitor_accepts_scanner (c : Nat) (hc : c < 16) (now timeout : Nat) (ops
   have hnew : (PScanner.new timeout)[c] = ({ timeout := timeout } : PChan) := by simp [PScanner.new]
   rw [ho, hnew, ← traceOf_eq_zip]
   exact monitor_accepts c timeout _ (project_valid c now ops hv)
+
+/-! ### data independence (justifies the value abstraction of the polling scanner's state-space exploration) -/
+
+/-- C14 / C12, data independence of the polling scanner's per-channel machine, for EVERY finite sequence of events
+    (Control Changes with time stamps, polls at any times, resets): relabelling all value bytes by `f` relabels
+    the final state and every reported message, and changes nothing else - in particular not WHEN something is
+    reported or how many messages there are. -/
+theorem data_independent (f : Nat → Nat) (hf : ∀ v, v < 128 → f v < 128) (ch : Nat) (es : List PEv)
+    (hv : ∀ e ∈ es, e.Valid) (c : PChan) (hs : c.state.Bytes7) :
+    (c.relabel f).evs ch (es.map (relabelEv f)) = (((c.evs ch es).1).relabel f, (c.evs ch es).2.map (relabelPOut f)) := by
+  induction es generalizing c with
+  | nil => rfl
+  | cons e es ih =>
+    obtain ⟨h1, h2⟩ := ev_relabel f hf ch c hs e (hv e (List.mem_cons_self ..))
+    simp only [List.map_cons, PChan.evs, h1, ih (fun x hx => hv x (List.mem_cons_of_mem _ hx)) _ h2]
+
+/-! non-vacuity: NRPN 9/4 selected, data entry MSB 33 fed at time 5, polled at time 9 with timeout 3; every value
+    collapsed to `v % 2` -/
+example : (({ timeout := 3 } : PChan).evs 5 ([.cc 99 9 0, .cc 98 4 1, .cc 6 33 5, .poll 9].map (relabelEv (· % 2)))).2
+    = [(none, none), (none, none), (none, none), (some ⟨5, 128, 1, false, false, .dataEntry⟩, none)] := by decide
 
 end Midi.Props.C14
